@@ -50,7 +50,7 @@ MANIFEST = dict(
     design_ref="DESIGN.md section 4 C04",
 )
 REQUIRED = ["Xmp.Resource.C04_release_total", "Xmp.Resource.C04_start_atomic", "Xmp.Resource.C04_load_atomic",
-            "Xmp.Resource.C04_stream_ownership_partial", "Xmp.Resource.C04_tempfile", "Xmp.Resource.C04_reusable"]
+            "Xmp.Resource.C04_stream_ownership", "Xmp.Resource.C04_tempfile", "Xmp.Resource.C04_reusable"]
 
 WRAP = ["-Wl,--wrap=malloc", "-Wl,--wrap=calloc", "-Wl,--wrap=realloc", "-Wl,--wrap=free",
         "-Wl,--wrap=libxmp_release_module_extras", "-Wl,--wrap=mkstemp", "-Wl,--wrap=fdopen"]
@@ -101,7 +101,7 @@ def parse_output(text):
             cases.append({"kind": line.split(" ", 1)[0], "f": f, "viols": pend_v, "leaks": pend_l, "line": line,
                           "fault": fault})
             pend_v, pend_l, fault = [], [], None
-        elif line.startswith(("own ", "smix ", "reads ", "case ", "skip ", "begin ", "end")):
+        elif line.startswith(("own ", "smix ", "reads ", "case ", "skip ", "begin ", "end", "stride ")):
             notes.append(line)
     return cases, traces, notes, pend_v, pend_l
 
@@ -176,6 +176,10 @@ def run_faults_job(job):
             res["aborts"].append({"sig": sig, "args": list(args), "stderr": err[-3500:], "k": None, "pending": pv})
             break
         kfrom = int(args[kpos])
+        for nline in notes:
+            if nline.startswith("stride s="):
+                stride = int(nline.split("=")[1].split(" ")[0])
+                args[kpos + 2] = str(stride)
         crashed = (int(done[-1]["f"]["k"]) + stride) if done else (kfrom if any(c["kind"] == "base" for c in cases) else None)
         res["aborts"].append({"sig": sig, "args": list(args), "stderr": err[-3500:], "k": crashed, "pending": pv})
         restarts += 1
@@ -353,6 +357,12 @@ def _run(ck, R, exe, quick, scratch):
         # E. a stream that stops / errors at the j-th read call (callbacks)
         if i % 3 == ((seed + 1) % 3) or not quick:
             add("readfault:%s" % bn, ["readfault", m, 0, -1, max(1, size // (30 if quick else 300)), i % 2], malformed=True)
+    # B'. thorough: the larger corpus files, about 120 fault indices spread over the load
+    if not quick:
+        big = [f for f in vlib.corpus_files() if 65536 < os.path.getsize(f) <= 1500000 and not f.endswith((".data", ".txt"))]
+        for i, m in enumerate(big):
+            add("load-big:%s" % os.path.basename(m), ["faults", "load", ENTRIES[(i + seed) % 4], m, 0, -1, -120, 2], kpos=5, timeout=1500)
+        ck.note("big_modules", len(big))
     # F. stream ownership scenarios
     garbage = os.path.join(scratch, "garbage.bin")
     open(garbage, "wb").write(bytes((i * 37 + 11) & 0xff for i in range(3000)))
